@@ -197,6 +197,36 @@ func ruleIndexContracts(r *Run) {
 	r.pointConversionsVerbatim(fns)
 }
 
+// writesCells: the function assigns a grid cell itself or through a helper of the package it calls.
+func (r *Run) writesCells(fn *Func, depth int, seen map[*Func]bool) bool {
+	if fn == nil || fn.Body == nil || seen[fn] || depth > 3 {
+		return false
+	}
+	seen[fn] = true
+	found := false
+	ast.Inspect(fn.Body, func(nd ast.Node) bool {
+		if found {
+			return false
+		}
+		switch v := nd.(type) {
+		case *ast.AssignStmt:
+			for _, l := range v.Lhs {
+				if gridCell(l) == 2 {
+					found = true
+				}
+			}
+		case *ast.CallExpr:
+			if f, ok := calleeObj(fn.Info(), v).(*types.Func); ok && f.Pkg() != nil && f.Pkg().Path() == pkgDagaz {
+				if r.writesCells(r.P.Funcs[f], depth+1, seen) {
+					found = true
+				}
+			}
+		}
+		return true
+	})
+	return found
+}
+
 // footprintThenCells (Q8): a function that moves or resizes a stored plane (it changes Center or Extents of a
 // quad it reaches through a pointer) brings the cells up to date before it returns: after such a change no
 // path leaves the function early. A plane whose footprint grew while its registration stayed what it was is
@@ -208,18 +238,7 @@ func (r *Run) footprintThenCells(fns []*Func) {
 			continue
 		}
 		// only functions that also write grid cells (the ones responsible for the registration)
-		writesCells := false
-		ast.Inspect(fn.Body, func(nd ast.Node) bool {
-			if as, ok := nd.(*ast.AssignStmt); ok {
-				for _, l := range as.Lhs {
-					if gridCell(l) == 2 {
-						writesCells = true
-					}
-				}
-			}
-			return true
-		})
-		if !writesCells {
+		if !r.writesCells(fn, 0, map[*Func]bool{}) {
 			continue
 		}
 		var last ast.Stmt
